@@ -1,5 +1,7 @@
 mod util;
 mod c07;
+mod robots;
+mod c03;
 
 fn main() {
     let args: Vec<String> = std::env::args().collect();
@@ -15,6 +17,7 @@ fn main() {
     let n: Option<u64> = args.get(4).and_then(|s| s.parse().ok());
     match args[1].as_str() {
         "C07" => c07::main(tier, seed, n),
+        "C03" => c03::main(tier, seed, n),
         p => { eprintln!("unknown property {}", p); std::process::exit(2); }
     }
 }
